@@ -235,6 +235,8 @@ def items_strategy(signame, depth, mode, in_bracket, max_size=4):
         if depth <= 0 or r < 45:
             q = r % 9 if depth > 0 else draw(_S_INT) % 9
             if q <= 2:
+                if draw(_S_INT) < 12:
+                    return ['text', draw(st.sampled_from(['[a]', '[', ']', '[x] y', 'a]', '*', '[]']))]
                 return ['text', draw(_S_TEXT)]
             if q <= 4:
                 return ['space', draw(_S_WS_INLINE)]
@@ -376,9 +378,10 @@ def _norm_slots(item_slots, sigslots, sig):
             content = normalise(content, sig, in_bracket=True)
         elif form == 'token':
             content = list(content)
-            if content[0] == 'macro' and is_control_word(content[1]) and not content[2]:
+            if content[0] == 'macro' and is_control_word(content[1]):
                 # a control word used as single-token argument must not run into a following
-                # letter: it always carries its own trailing space
+                # letter, and its trailing space must not combine with a following newline
+                # into a paragraph break: it always carries exactly one blank
                 content[2] = ' '
         elif form == 'verb':
             o, c, t = content
@@ -441,13 +444,24 @@ def normalise(items, sig, in_bracket=False, _top=True):
             it[3] = _norm_slots(it[3], sigslots, sig)
             if not is_control_word(it[1]):
                 it[2] = ''
+            else:
+                first = next((sl for sl in it[3] if sl is not None), None)
+                if first is not None and not first[1] and _slot_first_char(first).isalpha():
+                    # "\\textbf a", never "\\textbfa"
+                    first[1] = [['space', ' ']]
         elif k == 'env':
             sigslots = sig['envs'][it[1]][0]
             it[2] = _norm_slots(it[2], sigslots, sig)
             it[3] = normalise(it[3], sig)
+            trig = _has_trailing_absent(it, sig)
+            if trig and _first_char(it[3]) in trig:
+                # the body must not start with what an absent optional argument looks for
+                it[3] = [['group', []]] + it[3]
         elif k == 'math':
-            body = normalise(it[3], sig)
-            body = [b for b in body if b[0] != 'par'] if it[1] in ('$', '$$') else body
+            body = it[3]
+            if it[1] in ('$', '$$'):
+                body = [b for b in body if b[0] != 'par']
+            body = normalise(body, sig)
             if it[1] == '$' and not render(body).strip():
                 body = [['text', 'x']]
             # a body starting or ending with '$'-like material is impossible (no bare $ items)
@@ -476,21 +490,84 @@ def _ends_with_newline_ws(it):
     return False
 
 
-def _has_trailing_absent(it, sig):
-    """trigger characters of absent optional slots after the last present one"""
+def _has_trailing_absent(it, sig, after_space=False):
+    """trigger characters of absent optional slots after the last present one; a slot that
+    does not accept leading whitespace (the line-break macro's [..]) is not triggered after
+    whitespace"""
     sigslots = _sig_slots(it, sig)
     slots = it[3] if it[0] == 'macro' else it[2]
     trig = set()
     for sl, sg in reversed(list(zip(slots, sigslots))):
         if sl is not None:
             break
+        if after_space and sg['k'] == 'onosp':
+            continue
         t = _slot_trigger(sg)
         if t:
             trig.add(t)
     return trig
 
 
+MULTI_SPECIALS = {'default': ['---', '--', '``', "''", '!`', '?`'], 'every': ['++']}
+
+
+def _sanitise_newlines(items):
+    """no two newline-bearing whitespace pieces in a row (that would be a paragraph break
+    the AST does not contain)"""
+    nl = False      # the rendering so far ends with a whitespace run that contains a newline
+    out = []
+    for it in items:
+        it = list(it)
+        k = it[0]
+        if k == 'space':
+            if nl and '\n' in it[1]:
+                it[1] = it[1].replace('\n', ' ')
+            nl = nl or ('\n' in it[1])
+        elif k == 'text':
+            if it[1].strip():
+                nl = False
+        elif k == 'comment':
+            nl = True
+        elif k == 'macro' and all(sl is None for sl in it[3]):
+            nl = '\n' in it[2]
+        else:
+            nl = False
+        out.append(it)
+    return out
+
+
+def _separate_specials(items, sig):
+    """insert {} where the end of one item and the start of the next would fuse into a
+    multi-character specials sequence of the context"""
+    multi = MULTI_SPECIALS['every' if 'mstar' in sig['macros'] or 'mmath' in sig['macros']
+                           else 'default']
+    out = []
+    for it in items:
+        if out and it[0] not in ('par', 'space') and out[-1][0] not in ('par', 'space'):
+            tail = render([out[-1]])[-2:]
+            head = render([it])[:2]
+            joined = tail + head
+            fuse = False
+            for q in multi:
+                i = joined.find(q)
+                while i >= 0:
+                    if i < len(tail) < i + len(q):
+                        fuse = True
+                    i = joined.find(q, i + 1)
+            if fuse:
+                out.append(['group', []])
+        out.append(it)
+    return out
+
+
 def _fix_adjacency(items, sig, in_bracket):
+    items = _sanitise_newlines(items)
+    items = _fix_adjacency_core(items, sig, in_bracket)
+    items = _sanitise_newlines(items)
+    return _separate_specials(items, sig)
+
+
+def _fix_adjacency_core(items, sig, in_bracket):
     out = []
     for it in items:
         k = it[0]
@@ -537,7 +614,7 @@ def _fix_adjacency(items, sig, in_bracket):
                 if fc and fc in trig:
                     out.append(['group', []])
         if prev is not None and prev[0] == 'space' and len(out) >= 2 and out[-2][0] == 'macro':
-            trig = _has_trailing_absent(out[-2], sig)
+            trig = _has_trailing_absent(out[-2], sig, after_space=True)
             if trig and k not in ('par', 'comment') and _first_char([it]) in trig:
                 # "\item [" : the space does not protect; insert {} before the space
                 out.insert(len(out) - 1, ['group', []])
@@ -695,3 +772,87 @@ def _lookup_slots(what, name, n):
         if what == 'envs' and name in sig['envs'] and len(sig['envs'][name][0]) == n:
             return sig['envs'][name][0]
     return [None] * n
+
+
+# ---------------------------------------------------------------------------
+# expected structure (C02): what was written, independent of pylatexenc
+
+def _nows(s):
+    return ''.join(s.split())
+
+
+def _merge_chars(seq):
+    """merge adjacent chars entries, drop those that are empty after whitespace removal"""
+    out = []
+    for e in seq:
+        if e[0] == 'chars':
+            if out and out[-1][0] == 'chars':
+                out[-1] = ['chars', out[-1][1] + e[1]]
+            else:
+                out.append(['chars', e[1]])
+        else:
+            out.append(e)
+    return [e for e in out if not (e[0] == 'chars' and e[1] == '')]
+
+
+def _slot_structure(sl, sg, bracket, par_special=True):
+    if sl is None:
+        return None
+    form, pre, content = sl
+    if form == 'braced':
+        return ['group', '{', '}', expected_structure(content, None, par_special)]
+    if form == 'token':
+        st_ = expected_structure([content], None, par_special)
+        return st_[0] if st_ else ['chars', '']
+    if form == 'star':
+        return ['chars', '*']
+    if form == 'marker':
+        return ['chars', content]
+    if form == 'bracket':
+        o, c = ('[', ']')
+        if sg is not None and sg['k'] in ('r', 'd'):
+            o, c = sg['x'][0], sg['x'][1]
+        return ['group', o, c, expected_structure(content, (o, c), par_special)]
+    if form == 'verb':
+        return ['group', content[0], content[1], _merge_chars([['chars', _nows(content[2])]])]
+    raise ValueError(form)
+
+
+def expected_structure(items, bracket=None, par_special=True):
+    """par_special: does the context declare the paragraph-break specials?  (if not, a
+    paragraph break is plain whitespace)"""
+    out = []
+    for it in items:
+        k = it[0]
+        if k in ('text', 'space'):
+            out.append(['chars', _nows(it[1])])
+        elif k == 'par':
+            out.append(['par'] if par_special else ['chars', ''])
+        elif k == 'group':
+            out.append(['group', '{', '}', expected_structure(it[1], None, par_special)])
+        elif k == 'bgroup':
+            o, c = bracket or ('[', ']')
+            out.append(['group', o, c, expected_structure(it[1], bracket, par_special)])
+        elif k == 'comment':
+            out.append(['comment', it[1]])
+        elif k == 'specials':
+            out.append(['specials', it[1]])
+        elif k == 'macro':
+            sigslots = _lookup_slots('macros', it[1], len(it[3]))
+            out.append(['macro', it[1], [_slot_structure(sl, sg, bracket, par_special)
+                                         for sl, sg in zip(it[3], sigslots)]])
+        elif k == 'env':
+            sigslots = _lookup_slots('envs', it[1], len(it[2]))
+            out.append(['env', it[1], [_slot_structure(sl, sg, bracket, par_special)
+                                       for sl, sg in zip(it[2], sigslots)],
+                        expected_structure(it[3], None, par_special)])
+        elif k == 'math':
+            typ = 'inline' if it[1] in ('$', '\\(') else 'display'
+            out.append(['math', it[1], it[2], typ, expected_structure(it[3], None, par_special)])
+        elif k == 'verb':
+            out.append(['macro', 'verb', [['chars', _nows(it[2])]]])
+        elif k == 'verbatimenv':
+            out.append(['env', 'verbatim', [['chars', _nows(it[1])]], []])
+        else:
+            raise ValueError(it)
+    return _merge_chars(out)
